@@ -120,7 +120,7 @@ def sig_sources(mod, enabled=None):
     xk = [k for k, c in enumerate(cases) if c[0] == "xpkg" and (enabled is None or k in enabled)]
     if xk:
         disp.append("\tcase %s:\n\t\treturn vsa.F(k, a), vsb.F(k, a)" % ", ".join(str(k) for k in xk))
-    disp += ["\t}", "\treturn vsig.Pair(k, a)", "}", ""]
+    disp += ["\t}", "\treturn vsig.Pair(k, a)", "}", "", "var _, _ = vsa.F, vsb.F", ""]
     return files, "\n".join(disp)
 
 
